@@ -8,7 +8,9 @@ def git(*a, **k):
 for p in sys.argv[1:]:
     pats = [f"harness/srcspec/{p}.py", f"lean/Audit/{p}Src.lean", f"lean/Audit/{p}SrcModel.lean",
             f"lean/RpylibModel/Generated/Src{p}.lean", f"lean/RpylibModel/Generated/baseline/Src{p}.lean",
-            f"lean/RpylibModel/ProofsGen/Src{p}.lean", f"lean/RpylibModel/ProofsGen/Src{p}Model.lean"]
+            f"lean/RpylibModel/ProofsGen/Src{p}.lean", f"lean/RpylibModel/ProofsGen/Src{p}Model.lean",
+            f"lean/Audit/{p}Srcb.lean", f"lean/RpylibModel/Generated/Src{p}b.lean", f"lean/RpylibModel/Generated/baseline/Src{p}b.lean",
+            f"lean/RpylibModel/ProofsGen/Src{p}b.lean"]
     pats += [str(f.relative_to(root)) for f in (root / "lean/RpylibModel/Lemmas").glob(f"Src{p}*.lean")]
     for f in pats:
         if (root / f).exists():
